@@ -175,9 +175,14 @@ def run(rep):
             for k, d, op in itertools.product((-4, -3, -2, -1, 1), (2, 3, 4), ("/", "%")):
                 es.append((op, ("+", gm, ("c", k)), d))
                 es.append(("+", (op, ("+", gm, ("c", k)), d), ("c", 2)))
+        small = set(map(repr, GE.gen_exprs(vars_, [0, 1, -1, 3], [2, 4], 4, mul_consts=(2, -1)))) if tier != "quick" else None
         for e in es:
             for pos in positions:
-                if tier == "quick" and pos != "index" and not GE.has_divmod(e):
+                # expressions without / or % are only interesting as indices (affine normalisation)
+                if pos != "index" and not GE.has_divmod(e):
+                    continue
+                # the four extra positions of the thorough tier take the expressions of the quick bound
+                if small is not None and pos not in POSITIONS_Q and repr(e) not in small:
                     continue
                 jobs.append((ctx, e, pos))
     if rep.seed:
